@@ -15,6 +15,7 @@ import (
 	"runtime"
 	"runtime/debug"
 	"sort"
+	"strconv"
 	"strings"
 	"time"
 
@@ -186,13 +187,15 @@ func hasParam(s []tokSpec) bool {
 
 type bounds struct {
 	A3n, A4n, A5n, Bn, B2n, Cn, Un int
+	Mn, MLn                        int // family M: ASCII patterns / patterns with a multi-byte literal
+	MLits                          []string
 	BLits                          []string
 }
 
 func generate(quick bool) ([]*patternX, bounds) {
-	bd := bounds{A3n: 5, A4n: 5, A5n: 4, Bn: 4, B2n: 4, Cn: 4, Un: 4, BLits: []string{"", "a", "ab", "A"}}
+	bd := bounds{A3n: 5, A4n: 5, A5n: 4, Bn: 4, B2n: 4, Cn: 4, Un: 4, Mn: 4, MLn: 3, MLits: mbLits, BLits: []string{"", "a", "ab", "A"}}
 	if quick {
-		bd = bounds{A3n: 4, A4n: 3, A5n: 3, Bn: 3, B2n: 3, Cn: 3, Un: 3, BLits: []string{"", "a", "ab", "A"}}
+		bd = bounds{A3n: 4, A4n: 3, A5n: 3, Bn: 3, B2n: 3, Cn: 3, Un: 3, Mn: 3, MLn: 2, MLits: mbLits[:5], BLits: []string{"", "a", "ab", "A"}}
 	}
 	var pats []*patternX
 	seen := map[string]bool{}
@@ -287,6 +290,16 @@ func generate(quick bool) ([]*patternX, bounds) {
 			}
 		})
 	}
+
+	// M / ML: multi-byte UTF-8 text in request paths and in literal pattern segments (mb.go). Like U,
+	// texts already explored over the base alphabet are explored again over this alphabet.
+	seenM := map[string]bool{}
+	generateMB(func(p *patternX) {
+		if !seenM[p.Text] {
+			seenM[p.Text] = true
+			pats = append(pats, p)
+		}
+	}, bd.MLits, bd.Mn, bd.MLn)
 	return pats, bd
 }
 
@@ -349,15 +362,23 @@ func inGeneric(syms []string, n int, path string) bool {
 	return true
 }
 
-func paramMenu(t token) []string {
+// paramMenu lists the values a parameter takes in the instantiations of its pattern; mb adds the
+// multi-byte values of family M (in front, so that shortening a menu drops ASCII values first).
+func paramMenu(t token, mb bool) []string {
+	pre := func(extra, m []string) []string {
+		if !mb {
+			return m
+		}
+		return append(append([]string(nil), extra...), m...)
+	}
 	switch t.Kind {
 	case kStar:
-		return []string{"", "a", "a/b", "a-b/", "*"}
+		return pre(mbWildMenu, []string{"", "a", "a/b", "a-b/", "*"})
 	case kPlus:
-		return []string{"a", "a/b", "", "+", "a.b"}
+		return pre(mbWildMenu, []string{"a", "a/b", "", "+", "a.b"})
 	}
 	if len(t.Cons) == 0 {
-		return []string{"a", "A7", "a-b", "a.b", "a/b", t.Text, ""}
+		return pre(mbNamedMenu, []string{"a", "A7", "a-b", "a.b", "a/b", t.Text, ""})
 	}
 	var m []string
 	seen := map[string]bool{}
@@ -365,6 +386,11 @@ func paramMenu(t token) []string {
 		if !seen[v] {
 			seen[v] = true
 			m = append(m, v)
+		}
+	}
+	if mb {
+		for _, v := range mbConsMenu {
+			add(v)
 		}
 	}
 	for _, c := range t.Cons {
@@ -393,6 +419,7 @@ func derivedPaths(p *patternX) []string {
 	var out []string
 	seen := map[string]bool{}
 	syms := sigmas[p.Sigma]
+	mb := isMBFamily(p.Family)
 	add1 := func(s string) {
 		if s == "" || s[0] != '/' || seen[s] {
 			return
@@ -423,13 +450,18 @@ func derivedPaths(p *patternX) []string {
 		for _, s := range insertSyms {
 			add(u[:i] + s + u[i:])
 		}
+		if mb {
+			for _, s := range mbInsertSyms {
+				add(u[:i] + s + u[i:])
+			}
+		}
 	}
 	// instantiations
 	var menus [][]string
 	total := 1
 	for _, t := range p.Toks {
 		if t.isParam() {
-			m := paramMenu(t)
+			m := paramMenu(t, mb)
 			menus = append(menus, m)
 			total *= len(m)
 		}
@@ -518,6 +550,8 @@ type exec struct {
 	ran  bool
 	cls  string
 	vals []string
+
+	hasCons bool
 }
 
 func regName(use bool) string {
@@ -559,8 +593,8 @@ func (e *exec) pathClass(path string) string {
 }
 
 func (e *exec) caseDoc(seen string) map[string]any {
-	return map[string]any{"pattern": e.p.Text, "registration": regName(e.use), "config": map[string]bool{"CaseSensitive": e.cfg.CaseSensitive, "StrictRouting": e.cfg.Strict, "UnescapePath": e.cfg.Unescape},
-		"request": "GET " + e.uri[len(uriPrefix):], "path_seen_by_handler": seen, "family": e.p.Family}
+	return map[string]any{"pattern": show(e.p.Text), "registration": regName(e.use), "config": map[string]bool{"CaseSensitive": e.cfg.CaseSensitive, "StrictRouting": e.cfg.Strict, "UnescapePath": e.cfg.Unescape},
+		"request": "GET " + show(e.uri[len(uriPrefix):]), "path_seen_by_handler": show(seen), "family": e.p.Family}
 }
 
 func (e *exec) violate(sig, what, seen string, observed map[string]any, expected string) {
@@ -655,21 +689,22 @@ func (e *exec) judge(c fiber.Ctx) {
 		k := 0
 		for _, t := range p.Toks {
 			if t.isParam() {
-				m["Params("+t.Name+")"] = strings.Clone(vals[k])
+				m["Params("+t.Name+")"] = show(vals[k])
 				k++
 			}
 		}
-		m["Route().Path"] = strings.Clone(c.Route().Path)
-		m["pattern_filled_with_params"] = p.fill(vals)
+		m["Route().Path"] = show(c.Route().Path)
+		m["pattern_filled_with_params"] = show(p.fill(vals))
 		return m
 	}
 	// sig builds the signature: requests that spell the pattern's own text are one class per clause
 	// (whatever the pattern); other requests are classified by the detail of the failing clause.
+	// Paths holding non-ASCII bytes are further classified by the kind of text (mb.go textClass).
 	sig := func(clause, detail string) string {
 		if pclass() != "other" {
-			return "handler-ran-on-own-pattern-text clause=" + clause + " reg=" + reg + " path=" + pclass()
+			return "handler-ran-on-own-pattern-text clause=" + clause + " reg=" + reg + " path=" + pclass() + textClass(path)
 		}
-		return clause + " " + detail + " reg=" + reg + " path=other"
+		return clause + " " + detail + " reg=" + reg + " path=other" + textClass(path)
 	}
 	// (4) Route().Path is the registered pattern
 	if rp := c.Route().Path; rp != p.Text {
@@ -703,7 +738,7 @@ func (e *exec) judge(c fiber.Ctx) {
 			case vInvalid:
 				sg := sig("constraint-violating-value-reached-handler", "constraint="+cd.Name)
 				e.violate(sg, "the handler ran although the captured value violates the declared constraint "+cd.Text, path, obs(),
-					"404 (value "+fmt.Sprintf("%q", v)+" is not a valid "+cd.Text+")")
+					"404 (value "+strconv.QuoteToASCII(v)+" is not a valid "+cd.Text+")")
 			case vUnspec:
 				e.l.Add("unspecified_skipped", 1)
 			default:
@@ -715,13 +750,47 @@ func (e *exec) judge(c fiber.Ctx) {
 	cls := recon(p.fill(vals), path, e.cfg, e.use)
 	if strings.HasPrefix(cls, "MISMATCH") {
 		e.violate(sig("params-do-not-reproduce-path", "kind="+strings.TrimPrefix(cls, "MISMATCH ")+" "+e.divergence(vals, path)),
-			"filling the pattern with the values reported by Params does not give the request path", path, obs(), "pattern filled with Params == "+path+" (modulo configured case folding / optional trailing slashes)")
+			"filling the pattern with the values reported by Params does not give the request path", path, obs(), "pattern filled with Params == "+show(path)+" (modulo configured case folding / optional trailing slashes)")
 		cls = "mismatch"
+		// Which request was it? When no assignment of constraint-satisfying values fills the pattern to
+		// this path (under the most tolerant reading) although some assignment does, the request is one
+		// "whose value violates a constraint": it had to get the not-found handling.
+		if e.hasCons && p.exists(path, e.cfg, e.use, true, 0) && !p.exists(path, e.cfg, e.use, true, 1) {
+			var n []string
+			for _, t := range p.Toks {
+				for _, cd := range t.Cons {
+					n = append(n, cd.Name)
+				}
+			}
+			e.violate(sig("constraint-violating-request-ran-handler", "constraints="+strings.Join(n, ";")),
+				"the handler ran on a request path that only constraint-violating values can fill (the reported values are not the path's)", path, obs(), "404")
+		}
 	}
 	if empties {
 		cls += " empty-optional"
 	}
 	e.cls = cls
+}
+
+// serve sends one GET request through the app's handler; it returns the panic text when the call panicked.
+func serve(fctx *fasthttp.RequestCtx, handler fasthttp.RequestHandler, uri string, first bool) (panicked string) {
+	defer func() {
+		if r := recover(); r != nil {
+			panicked = fmt.Sprint(r)
+		}
+	}()
+	if first {
+		// the first request of an app opens the fake connection ...
+		fx.CallInto(fctx, handler, fx.Req("GET", uri), nil, false)
+	} else {
+		// ... later ones arrive on it like keep-alive requests
+		fctx.Request.Reset()
+		fctx.Response.Reset()
+		fctx.ResetUserValues()
+		fctx.Request.SetRequestURI(uri)
+		handler(fctx)
+	}
+	return ""
 }
 
 func unescapedView(raw string, unescape bool) (string, bool) {
@@ -751,6 +820,28 @@ func runPattern(pi int, p *patternX, l *core.Local, vs vset, sample func(string,
 	for i, d := range der {
 		derURIs[i] = uriPrefix + d
 	}
+	// family M: under UnescapePath every path holding non-ASCII bytes is also sent percent-encoded;
+	// encViews[i] is the path before encoding: what the router must see after decoding when encPred[i]
+	var encURIs, encViews []string
+	var encPred []bool
+	mb := isMBFamily(p.Family)
+	if mb {
+		addEnc := func(uri string) {
+			raw := uri[len(uriPrefix):]
+			if isASCII(raw) {
+				return
+			}
+			encURIs = append(encURIs, uriPrefix+pctEncode(raw))
+			encViews = append(encViews, raw)
+			encPred = append(encPred, !strings.ContainsAny(raw, "%+?#"))
+		}
+		for _, u := range gen.uris {
+			addEnc(u)
+		}
+		for _, u := range derURIs {
+			addEnc(u)
+		}
+	}
 	hasCons := false
 	for _, t := range p.Toks {
 		hasCons = hasCons || len(t.Cons) > 0
@@ -760,7 +851,7 @@ func runPattern(pi int, p *patternX, l *core.Local, vs vset, sample func(string,
 	var fctx fasthttp.RequestCtx
 	for _, use := range []bool{false, true} {
 		for ci, cfg := range cfgs {
-			e := &exec{l: l, vs: vs, p: p, pi: pi, use: use, cfg: cfg, ci: ci}
+			e := &exec{l: l, vs: vs, p: p, pi: pi, use: use, cfg: cfg, ci: ci, hasCons: hasCons}
 			app := fiber.New(fiber.Config{CaseSensitive: cfg.CaseSensitive, StrictRouting: cfg.Strict, UnescapePath: cfg.Unescape})
 			app.RegisterCustomConstraint(oddConstraint{})
 			app.RegisterCustomConstraint(multConstraint{})
@@ -787,28 +878,53 @@ func runPattern(pi int, p *patternX, l *core.Local, vs vset, sample func(string,
 			l.Add("apps", 1)
 			first := true
 			nGen := len(gen.uris)
-			for idx := 0; idx < nGen+len(derURIs); idx++ {
-				if idx < nGen {
+			nRaw := nGen + len(derURIs)
+			nAll := nRaw
+			if cfg.Unescape {
+				nAll += len(encURIs)
+			}
+			for idx := 0; idx < nAll; idx++ {
+				encView := ""
+				switch {
+				case idx < nGen:
 					e.uri = gen.uris[idx]
-				} else {
+				case idx < nRaw:
 					e.uri = derURIs[idx-nGen]
+				default:
+					e.uri = encURIs[idx-nRaw]
+					if encPred[idx-nRaw] {
+						encView = encViews[idx-nRaw]
+					}
 				}
 				e.idx = idx
 				e.ran = false
-				if first {
-					// the first request of an app opens the fake connection ...
-					fx.CallInto(&fctx, handler, fx.Req("GET", e.uri), nil, false)
-					first = false
-				} else {
-					// ... later ones arrive on it like keep-alive requests
-					fctx.Request.Reset()
-					fctx.Response.Reset()
-					fctx.ResetUserValues()
-					fctx.Request.SetRequestURI(e.uri)
-					handler(&fctx)
+				panicked := serve(&fctx, handler, e.uri, first)
+				first = false
+				l.Add("evaluations", 1)
+				mbReq := idx >= nRaw || (mb && !isASCII(e.uri))
+				if mbReq {
+					l.Add("requests_with_multibyte_text", 1)
+				}
+				sampleNow := sample != nil && (pi*31+idx)%sampleEvery == 0 && ci == 1
+				if mb { // samples of family M show multi-byte text, in the configuration that folds case
+					sampleNow = sample != nil && mbReq && ci == 4 && idx%7 == 0
+				}
+				if panicked != "" {
+					// neither the handler nor the not-found handling: the request crashed the router
+					// (fasthttp does not recover panics: the server process would die)
+					l.Add("nontrivial", 1)
+					l.Outcome("panic while routing")
+					tc := textClass(e.uri[len(uriPrefix):])
+					if idx >= nRaw {
+						tc = textClass(encViews[idx-nRaw]) + " percent-encoded"
+					}
+					e.violate("routing-panicked reg="+regName(use)+" ran-handler="+fmt.Sprint(e.ran)+tc,
+						"the request made the router panic: it got neither the handler nor the not-found handling", "",
+						map[string]any{"panic": panicked}, "handler (with Params that reproduce the path) or 404")
+					first = true // start again on a fresh connection
+					continue
 				}
 				status := fctx.Response.StatusCode()
-				l.Add("evaluations", 1)
 				if e.ran {
 					l.Add("nontrivial", 1)
 					l.Add("handler_ran", 1)
@@ -816,12 +932,15 @@ func runPattern(pi int, p *patternX, l *core.Local, vs vset, sample func(string,
 					if status != 200 {
 						l.Outcome(fmt.Sprintf("ran-but-status=%d", status))
 					}
-					if sample != nil && (pi*31+idx)%sampleEvery == 0 && ci == 1 {
-						m := map[string]any{"pattern": p.Text, "reg": regName(use), "config": cfg.String(), "request": e.uri[len(uriPrefix):], "class": "handler ran: " + e.cls}
+					if mbReq {
+						l.Add("handler_ran_on_multibyte_text", 1)
+					}
+					if sampleNow {
+						m := map[string]any{"pattern": show(p.Text), "reg": regName(use), "config": cfg.String(), "request": show(e.uri[len(uriPrefix):]), "class": "handler ran: " + e.cls}
 						k := 0
 						for _, t := range p.Toks {
 							if t.isParam() {
-								m["Params("+t.Name+")"] = strings.Clone(e.vals[k])
+								m["Params("+t.Name+")"] = show(e.vals[k])
 								k++
 							}
 						}
@@ -832,7 +951,11 @@ func runPattern(pi int, p *patternX, l *core.Local, vs vset, sample func(string,
 				// handler did not run
 				definitelyInvalid := false
 				if hasCons && (idx >= nGen || status != fiber.StatusNotFound) {
-					if view, ok := unescapedView(e.uri[len(uriPrefix):], cfg.Unescape); !ok {
+					view, ok := unescapedView(e.uri[len(uriPrefix):], cfg.Unescape)
+					if !ok && encView != "" {
+						view, ok = encView, true // %XX of a byte >= 0x80 decodes to that byte: nothing to dispute
+					}
+					if !ok {
 						l.Add("unspecified_skipped", 1)
 					} else if p.exists(view, cfg, use, false, 0) && !p.exists(view, cfg, use, true, 1) {
 						// (5) the request fills the pattern, but only with a value some constraint definitely rejects
@@ -848,8 +971,8 @@ func runPattern(pi int, p *patternX, l *core.Local, vs vset, sample func(string,
 				}
 				switch {
 				case definitelyInvalid:
-					if sample != nil && (pi*31+idx)%sampleEvery == 0 && ci == 1 {
-						sample(p.Family+" rejected", map[string]any{"pattern": p.Text, "reg": regName(use), "config": cfg.String(), "request": e.uri[len(uriPrefix):],
+					if sampleNow {
+						sample(p.Family+" rejected", map[string]any{"pattern": show(p.Text), "reg": regName(use), "config": cfg.String(), "request": show(e.uri[len(uriPrefix):]),
 							"class": fmt.Sprintf("handler did not run, status %d; reference: only constraint-violating values fill the pattern", status)})
 					}
 					l.Outcome(fmt.Sprintf("not-run status=%d constraint-violating-request", status))
@@ -864,6 +987,7 @@ func runPattern(pi int, p *patternX, l *core.Local, vs vset, sample func(string,
 func main() {
 	only := flag.String("only", "", "debug: run only patterns whose text equals this")
 	list := flag.Bool("list", false, "debug: print the patterns and exit")
+	famFlag := flag.String("family", "", "debug: run only the patterns of these families (comma separated)")
 	limitFlag := flag.Duration("limit", 0, "debug: override the internal wall-clock cap")
 	r := core.Start("C02")
 	pats, bd := generate(r.Quick())
@@ -871,6 +995,15 @@ func main() {
 		var f []*patternX
 		for _, p := range pats {
 			if p.Text == *only {
+				f = append(f, p)
+			}
+		}
+		pats = f
+	}
+	if *famFlag != "" {
+		var f []*patternX
+		for _, p := range pats {
+			if strings.Contains(","+*famFlag+",", ","+p.Family+",") {
 				f = append(f, p)
 			}
 		}
@@ -905,7 +1038,7 @@ func main() {
 		vs := vset{}
 		var sample func(string, any)
 		if r.Worker == 0 { // only one worker samples: one case per family and kind, in exploration order
-			want := map[string]bool{"A3 ran": true, "A5 ran": true, "B ran": true, "B rejected": true, "C ran": true, "U ran": true}
+			want := map[string]bool{"A3 ran": true, "A5 ran": true, "B ran": true, "B rejected": true, "C ran": true, "U ran": true, "M ran": true, "M rejected": true, "ML ran": true}
 			sample = func(k string, v any) {
 				if want[k] {
 					want[k] = false
@@ -947,6 +1080,9 @@ func main() {
 	}
 	if *limitFlag > 0 {
 		extra = append(extra, "-limit", limitFlag.String())
+	}
+	if *famFlag != "" {
+		extra = append(extra, "-family", *famFlag)
 	}
 	partDir := r.PartsDir()
 	for i := 0; i < nw; i++ {
@@ -1001,17 +1137,19 @@ func main() {
 		Level:      "exploration",
 		Exhaustive: true,
 		Coverage: map[string]any{
-			"evaluations":         r.P.Counters["evaluations"],
-			"distinct_nontrivial": r.P.Counters["nontrivial"],
-			"unspecified_skipped": r.P.Counters["unspecified_skipped"],
-			"rule":                "one evaluation = one GET request to a fresh single-route app: every pattern of the token grammar (families A3/A4/A5 unconstrained shapes, B one constrained parameter at every named position, B2 two constrained parameters, C escaped characters, U percent-encoded alphabet) x registration {app.Get, app.Use} x 8 configs {CaseSensitive,StrictRouting,UnescapePath} x every request path of the family alphabet ('/' followed by <= n symbols) plus the pattern-derived paths (own text raw/unescaped/upper/lower/'?'->%3F, every one-character deletion and one-symbol insertion of it, every instantiation of the pattern with per-parameter value menus incl. valid/invalid/unspecified constraint exemplars and the parameter's own spelling). All (pattern, registration, config, path) tuples are distinct by construction. A case is non-trivial when the handler ran (the in-handler oracle was evaluated) or when the reference classified the request as carrying only constraint-violating values (404 clause evaluated); both are counted in the loop.",
+			"evaluations":                   r.P.Counters["evaluations"],
+			"distinct_nontrivial":           r.P.Counters["nontrivial"],
+			"unspecified_skipped":           r.P.Counters["unspecified_skipped"],
+			"requests_with_multibyte_text":  r.P.Counters["requests_with_multibyte_text"],
+			"handler_ran_on_multibyte_text": r.P.Counters["handler_ran_on_multibyte_text"],
+			"rule":                          "one evaluation = one GET request to a fresh single-route app: every pattern of the token grammar (families A3/A4/A5 unconstrained shapes, B one constrained parameter at every named position, B2 two constrained parameters, C escaped characters, U percent-encoded alphabet, M the ASCII shapes of U plus <int>/<alpha> over an alphabet of multi-byte UTF-8 text, ML the same shapes with a multi-byte literal segment in the pattern) x registration {app.Get, app.Use} x 8 configs {CaseSensitive,StrictRouting,UnescapePath} x every request path of the family alphabet ('/' followed by <= n symbols) plus the pattern-derived paths (own text raw/unescaped/upper/lower/'?'->%3F, every one-character deletion and one-symbol insertion of it, every instantiation of the pattern with per-parameter value menus incl. valid/invalid/unspecified constraint exemplars and the parameter's own spelling). Families M/ML: the alphabet, the inserted symbols and the value menus hold one representative of every class of byte-level hazard (2-byte letters with a same-length case partner, letters whose case mapping changes the encoded length in either direction, 3- and 4-byte code points without case, bytes that are not UTF-8), sent raw and, under UnescapePath, also percent-encoded. All (pattern, registration, config, path) tuples are distinct by construction. A case is non-trivial when the handler ran (the in-handler oracle was evaluated) or when the reference classified the request as carrying only constraint-violating values (404 clause evaluated); both are counted in the loop.",
 			"bounds": map[string]any{
 				"tier":                 r.Tier,
 				"patterns":             len(pats),
 				"patterns_per_family":  famDoc,
-				"max_tokens":           map[string]int{"A3": 3, "A4": 4, "A5": 5, "B": 3, "B2": 4, "C": 3, "U": 3},
-				"generic_path_symbols": map[string]int{"A3": bd.A3n, "A4": bd.A4n, "A5": bd.A5n, "B": bd.Bn, "B2": bd.B2n, "C": bd.Cn, "U": bd.Un},
-				"alphabets":            map[string]any{"base": baseSyms, "escape_family": escSyms, "percent_family": pctSyms, "constraint_extra_symbols": "bool:true guid:valid+truncated min/range:3 datetime:2024-02-29,2023-02-29"},
+				"max_tokens":           map[string]int{"A3": 3, "A4": 4, "A5": 5, "B": 3, "B2": 4, "C": 3, "U": 3, "M": 3, "ML": 3},
+				"generic_path_symbols": map[string]int{"A3": bd.A3n, "A4": bd.A4n, "A5": bd.A5n, "B": bd.Bn, "B2": bd.B2n, "C": bd.Cn, "U": bd.Un, "M": bd.Mn, "ML": bd.MLn},
+				"alphabets":            map[string]any{"base": baseSyms, "escape_family": escSyms, "percent_family": pctSyms, "multibyte_families": showAll(mbSyms), "multibyte_pattern_literals": showAll(bd.MLits), "constraint_extra_symbols": "bool:true guid:valid+truncated min/range:3 datetime:2024-02-29,2023-02-29"},
 				"literals":             map[string]any{"A3": []string{"", "a", "ab", "A"}, "A4": []string{"", "a"}, "A5": []string{""}, "B": bd.BLits},
 				"constraints":          consNames,
 				"excluded_adjacency":   "named parameter directly followed by '*'/'+', and '+' directly followed by a parameter (reading not fixed by the docs)",
@@ -1021,14 +1159,16 @@ func main() {
 		Assumptions: []string{
 			"handler-level drive: app.Handler() on a fake connection (fx.CallInto for the first request of each app, later requests reuse that RequestCtx like keep-alive requests); 16 single-threaded worker processes (GOMAXPROCS=1) so that the pooled fiber context, whose parameter values survive failed match attempts, is the same object for every request of an app",
 			"the request path is what the handler sees through Path() (PathOriginal, percent-decoded when UnescapePath); fasthttp's URI splitting/decoding is not re-checked",
+			"case folding: the statement does not say which letters fold; the reconstruction clause accepts the most tolerant reading (simple Unicode case folding, rune by rune; bytes that are not UTF-8 stand for themselves), the 404 clause demands only what the ASCII reading and the Unicode reading agree on",
+			"a request that makes the router panic is reported as a violation (it got neither the handler nor the not-found handling)",
 			"the harness reads patterns by its own token list (never fiber's parser); per-constraint references are three-valued and written from docs/guide/routing.md; custom constraints are specified by their own Execute",
 			"patterns without parameters are not judged (the statement speaks about parameterised patterns)",
 			"trailing-slash tolerance: always when StrictRouting is off; under StrictRouting only slashes spelled by the pattern and absent from the request",
 		},
 		MinOutcomes: 4,
 	}
-	if r.P.Counters["handler_ran"] == 0 || (*only == "" && r.P.Counters["invalid_value_requests"] == 0) {
-		core.Fatal("vacuous: handler_ran=%d invalid_value_requests=%d", r.P.Counters["handler_ran"], r.P.Counters["invalid_value_requests"])
+	if r.P.Counters["handler_ran"] == 0 || (*only == "" && *famFlag == "" && (r.P.Counters["invalid_value_requests"] == 0 || r.P.Counters["handler_ran_on_multibyte_text"] == 0)) {
+		core.Fatal("vacuous: handler_ran=%d invalid_value_requests=%d handler_ran_on_multibyte_text=%d", r.P.Counters["handler_ran"], r.P.Counters["invalid_value_requests"], r.P.Counters["handler_ran_on_multibyte_text"])
 	}
 	r.Finish(ev)
 }
